@@ -954,10 +954,9 @@ RETCODE adfFileReadNextBlock ( struct AdfFile * const file )
     if (file->nDataBlock==0) {
         nSect = file->fileHdr->firstData;
     }
-    else if (isOFS(file->volume->dosType)) {
-        nSect = data->nextData;
-    }
     else {
+        /* the extension block state is kept in step for OFS too
+           (a later append continues from it) */
         if (file->nDataBlock<MAX_DATABLK)
             nSect = file->fileHdr->dataBlocks[MAX_DATABLK-1-file->nDataBlock];
         else {
@@ -999,6 +998,8 @@ RETCODE adfFileReadNextBlock ( struct AdfFile * const file )
             nSect = file->currentExt->dataBlocks[MAX_DATABLK-1-file->posInExtBlk];
             file->posInExtBlk++;
         }
+        if (isOFS(file->volume->dosType))
+            nSect = data->nextData;
     }
 
     if ( nSect < 2 ) {
